@@ -96,6 +96,16 @@ class Lam:
     def __init__(self, body, item, result, upvars=None, kind="closure", fn=None):
         self.body, self.item, self.result, self.upvars, self.kind, self.fn = body, item, result, upvars, kind, fn
 
+    def apply(self, x):
+        """the result with the parameter replaced by `x`, in the coordinates of the enclosing body; calls inside carry no block of that body"""
+        def f(n):
+            if n == self.item:
+                return x
+            if n[0] == "call" and n[1].get("bb") is not None:
+                return ("call", mir.HDict(dict(n[1], bb=None)), n[2])
+            return n
+        return mir.rewrite(self.outer(self.result), f)
+
     def outer(self, t):
         if self.upvars is None:
             return t
